@@ -437,6 +437,21 @@ let op_strender (args : str list) : str list =
        | _ -> ["notparsed"])
   | _ -> ["bad-args"]
 
+(* the text round trip: "<hex text of a function block>" -> rt <1|0: the decidable check text_ok of the rendering> <1|0: parsing the
+   rendered TEXT gives back the statements> <hex of the rendered text> | emptybody | notparsed *)
+let op_textrt (args : str list) : str list =
+  match args with
+  | [h] ->
+      (match parse_fb_text (text_of_hex h) with
+       | OParsed [] -> ["emptybody"]
+       | OParsed l ->
+           let name = [n_of_int 102; n_of_int 98] in
+           let u = render_fb name l in
+           let txt = render_text name l in
+           [ "rt"; (if text_ok u then "1" else "0"); (if parse_fb_text txt = OParsed l then "1" else "0"); hex_of_text txt ]
+       | _ -> ["notparsed"])
+  | _ -> ["bad-args"]
+
 (* semantic rules on facts: one fact per argument (fields separated by ','; see harness op `facts`) ->
    one field per rule, "code@pos code@pos ..", in the order const_init const_not_fb global_const task enum_value fb_call stdlib *)
 let fact_of (w : str) : fact =
@@ -645,7 +660,7 @@ let op_lib2render (args : str list) : str list =
 
 let ops : (str * (str list -> str list)) list ref =
   ref [ ("lex", op_lex); ("semtok", op_semtok); ("decode", op_decode); ("lit", op_lit); ("cycle", op_cycle);
-        ("lsp", op_lsp); ("cli", op_cli); ("rule", op_rule); ("expr", op_expr); ("scope", op_scope); ("stmts", op_stmts); ("strender", op_strender); ("rules", op_rules); ("latebound", op_latebound); ("fbd", op_fbd); ("fbdrender", op_fbdrender); ("lib", op_lib); ("lib2", op_lib2); ("lib2render", op_lib2render); ("exprkind", op_exprkind); ("datadecl", op_datadecl); ("declrules", op_declrules) ]
+        ("lsp", op_lsp); ("cli", op_cli); ("rule", op_rule); ("expr", op_expr); ("scope", op_scope); ("stmts", op_stmts); ("strender", op_strender); ("rules", op_rules); ("latebound", op_latebound); ("fbd", op_fbd); ("fbdrender", op_fbdrender); ("lib", op_lib); ("lib2", op_lib2); ("lib2render", op_lib2render); ("exprkind", op_exprkind); ("datadecl", op_datadecl); ("declrules", op_declrules); ("textrt", op_textrt) ]
 
 
 let () =
